@@ -21,6 +21,7 @@ import (
 	"github.com/influxdata/influxdb/models"
 	"github.com/influxdata/influxdb/pkg/limiter"
 	"github.com/influxdata/influxdb/pkg/pool"
+	"github.com/influxdata/influxdb/pkg/verifhook"
 	"go.uber.org/zap"
 )
 
@@ -299,6 +300,9 @@ func (l *WAL) scheduleSync() {
 // a write lock on the WAL is obtained before calling sync.
 func (l *WAL) sync() {
 	err := l.currentSegmentWriter.sync()
+	if verifhook.Enabled {
+		verifhook.Emit("wal.sync", l.currentSegmentWriter.path(), l.currentSegmentWriter.size, err)
+	}
 	for len(l.syncWaiters) > 0 {
 		errC := <-l.syncWaiters
 		errC <- err
@@ -362,6 +366,9 @@ func (l *WAL) Remove(files []string) error {
 	for _, fn := range files {
 		l.traceLogger.Info("Removing WAL file", zap.String("path", fn))
 		os.RemoveAll(fn)
+	}
+	if verifhook.Enabled {
+		verifhook.Emit("wal.remove", files)
 	}
 
 	// Refresh the on-disk size stats
@@ -433,6 +440,9 @@ func (l *WAL) writeToLog(entry WALEntry) (int, error) {
 		// write and sync
 		if err := l.currentSegmentWriter.Write(entry.Type(), compressed); err != nil {
 			return -1, fmt.Errorf("error writing WAL entry: %v", err)
+		}
+		if verifhook.Enabled {
+			verifhook.Emit("wal.write", l.currentSegmentWriter.path(), l.currentSegmentWriter.size, 5+len(compressed), int(entry.Type()))
 		}
 
 		select {
@@ -574,6 +584,9 @@ func (l *WAL) newSegmentFile() error {
 		return err
 	}
 	l.currentSegmentWriter = NewWALSegmentWriter(fd)
+	if verifhook.Enabled {
+		verifhook.Emit("wal.newsegment", fileName, l.currentSegmentID)
+	}
 
 	// Reset the current segment size stat
 	atomic.StoreInt64(&l.stats.CurrentBytes, 0)
